@@ -53,3 +53,61 @@ contract(
         "label-iff-changed": "result[1] == ('unescape.shell.carets' if result[0] != cmd else '')",
     },
 )
+
+
+# ------------------------------------------------------------------------------------------------ find_cmd_strings (C16, C03, C01)
+@spec
+def first_neg(s: bytes, i: int, b: int) -> int:
+    """Index of the first byte at or after i at which the parenthesis balance (b before byte i) drops below zero,
+    i.e. of the first unbalanced closing parenthesis; len(s) if there is none."""
+    if i >= len(s):
+        return len(s)
+    if s[i] == 41:
+        if b - 1 < 0:
+            return i
+        return first_neg(s, i + 1, b - 1)
+    if s[i] == 40:
+        return first_neg(s, i + 1, b + 1)
+    return first_neg(s, i + 1, b)
+
+
+from contracts.decoders import EACH, FRESH, DISTINCT  # noqa: E402
+from pyvc.contract import lemma  # noqa: E402
+
+lemma(
+    "first-neg-range",
+    props=["C16"],
+    vars={"s": "bytes", "i": "int", "b": "int"},
+    hyps=[
+        "0 <= i <= len(s)",
+        # induction hypothesis (measure len(s) - i), for whatever balance the next step carries
+        "implies(i < len(s), forall(ints, lambda b2: i + 1 <= first_neg(s, i + 1, b2) <= len(s)))",
+    ],
+    goal="i <= first_neg(s, i, b) <= len(s)",
+    notes="induction step of: 0 <= i <= len(s) ==> i <= first_neg(s, i, b) <= len(s)",
+)
+
+contract(
+    "multidecoder.decoders.shell.find_cmd_strings",
+    props=["C16", "C03", "C01"],
+    returns="list[Node]",
+    fresh_nodes=True,
+    collector="cmd_strings",
+    types={"split": "list[bytes]"},
+    ensures_each={**EACH, "type": "node.type == 'shell.cmd'"},
+    hints={"post-loop": ["start <= end"]},
+    ensures={"fresh": FRESH, "distinct": DISTINCT},
+    loops={
+        2: Loop(
+            index="j",
+            hints=["first-neg-range: j <= first_neg(at(pre_L2, full_cmd), j, parens) <= len(at(pre_L2, full_cmd))"],
+            inv={
+                # the span ends at the first unbalanced closing parenthesis of the matched text (C16): the scan never runs past it
+                "not-past-the-cut": "first_neg(at(pre_L2, full_cmd), 0, 0) >= j",
+                "before-the-cut": "full_cmd == at(pre_L2, full_cmd) and end == at(pre_L2, end) "
+                "and parens >= 0 and first_neg(at(pre_L2, full_cmd), j, parens) == first_neg(at(pre_L2, full_cmd), 0, 0)",
+                "span": "at(pre_L2, end) == start + len(at(pre_L2, full_cmd)) and 0 <= start",
+            },
+        )
+    },
+)
